@@ -105,7 +105,7 @@ def rand_cmd(rng, sc, pool, group):
         vars_ = []
     else:
         vars_ = [rand_var(rng, sc, True) for _ in range(rng.randint(1, 4))]
-    desc = None if rng.random() < 0.6 else bytes(rng.choice(b"abc def,XYZ") for _ in range(rng.randint(0, 12)))
+    desc = None if rng.random() < 0.6 else bytes(rng.choice(b"abc def,XYZ%%d") for _ in range(rng.randint(0, 12)))
     return Cmd(name, desc, h, vars_, need_all=rng.random() < 0.3, only_test=rng.random() < 0.08,
                disable=rng.random() < 0.1, implicit=implicit, group=group)
 
